@@ -130,7 +130,7 @@ func init() {
 			if n == 0 {
 				return nil, fmt.Errorf("no pair could be built")
 			}
-			rs := RunSpec{Dir: c.Mod, Patterns: []string{"./pairs/..."}, Prefix: "VerifC18", ArbNarrow: c.Tier != "thorough",
+			rs := RunSpec{Dir: c.Mod, Patterns: []string{"./pairs/..."}, Prefix: "VerifC18", ArbNarrow: true,
 				TargetPrefixes: []string{"github.com/vkd/goag/tests/", "github.com/vkd/goag/examples/", "vscratch/pkgs/"},
 				ReplayPkgDir: func(h string) string {
 					i := strings.Index(h, "pairs/")
